@@ -163,6 +163,10 @@ def jobs(tier):
                               bounds="second m_ctx_register from callback kind %d of a %s module" % (cb, "deny-ctx" if deny else "normal"),
                               unwind=13)
             js.append(js_extra)
+    for act in (1, 2):
+        js.append(l2_job("C07.flushdereg.act%d" % act, "l2/c07_flushdereg.c", defines={"ACT": act},
+                         symbolic=["quit code (uint8)", "errno left by callbacks (int)"],
+                         bounds="non-persistent context, one module; its CTX_STOPPED handler %s" % ("deregisters the module" if act == 1 else "calls m_ctx_deregister"), unwind=13))
     return js
 
 
